@@ -18,8 +18,10 @@ func suiteC13Bind(cfg Config, res *Result) {
 		n = 60000
 	}
 	rng := NewRNG(cfg.Seed)
-	argPool := []struct{ src, val string }{{"1", "1"}, {"2.5", "2.500000"}, {`"s"`, "s"}, {"true", "True"}, {"x", "ctxx"}, {"n", ""}, {"l", "<[]int Value>"}, {"i", "42"}, {`""`, ""}, {"y", "dy"}}
-	defPool := []struct{ src, val string }{{"7", "7"}, {`"d"`, "d"}, {"y", "dy"}, {"i", "42"}}
+	argPool := []struct{ src, val string }{{"1", "1"}, {"2.5", "2.500000"}, {`"s"`, "s"}, {"true", "True"}, {"x", "ctxx"}, {"n", ""}, {"l", "<[]int Value>"}, {"i", "42"}, {`""`, ""}, {"y", "dy"}, {"hm", "&lt;h&gt;"}}
+	defPool := []struct{ src, val string }{{"7", "7"}, {`"d"`, "d"}, {"y", "dy"}, {"i", "42"},
+		// a default is the value of its expression, with what that value carries: markup marked safe stays safe
+		{"sv", "<b>"}, {"hm", "&lt;h&gt;"}}
 	var cases []ProgCase
 	wants := map[string]string{}
 	for i := 0; i < n; i++ {
@@ -69,7 +71,7 @@ func suiteC13Bind(cfg Config, res *Result) {
 			want = "ok " + hxb(w+"</m>")
 		}
 		def := "{% macro mm(" + strings.Join(sig, ", ") + ") export %}" + body + "{% endmacro %}"
-		ct := CtxTerm{Names: []string{"x", "y", "n", "l", "i", "p0", "p1", "p2", "p3"}, Vals: []VT{vStr("ctxx"), vStr("dy"), vNil(), vList("int", vInt(1)), vInt(42), vStr("o0"), vStr("o1"), vStr("o2"), vStr("o3")}}
+		ct := CtxTerm{Names: []string{"sv", "hm", "x", "y", "n", "l", "i", "p0", "p1", "p2", "p3"}, Vals: []VT{vBoxed(vStr("<b>"), true), vStr("<h>"), vStr("ctxx"), vStr("dy"), vNil(), vList("int", vInt(1)), vInt(42), vStr("o0"), vStr("o1"), vStr("o2"), vStr("o3")}}
 		lbl := "full"
 		if na < np {
 			lbl = "omitted"
